@@ -410,6 +410,56 @@ def _terminates(stmts: List[ast.stmt]) -> bool:
     return bool(stmts) and isinstance(stmts[-1], (ast.Return, ast.Raise, ast.Break, ast.Continue))
 
 
+def unselected_tests_as_try(fn: ast.AST) -> bool:
+    """`g = <oneof_group_by_field>.get(F)` ... `if g is not None and <_group_current>[g] != F: A  else: x = getattr(self, F); B`
+    is the explicit form of `try: x = getattr(self, F)  except AttributeError: A  else: B`: Message.__getattribute__ raises for
+    a declared field exactly when the field belongs to a group whose recorded selection is another member (that is what the
+    O-rules establish about it).  Rewritten into the try form, which is the one the field-loop rules know."""
+    def alias_of(name: str, attr: str) -> bool:
+        binds = [a for a in ast.walk(fn) if isinstance(a, ast.Assign) and len(a.targets) == 1 and isinstance(a.targets[0], ast.Name) and a.targets[0].id == name]
+        return len(binds) == 1 and isinstance(binds[0].value, ast.Attribute) and binds[0].value.attr == attr
+
+    def is_table(e: ast.AST, attr: str) -> bool:
+        return (isinstance(e, ast.Attribute) and e.attr == attr) or (isinstance(e, ast.Name) and alias_of(e.id, attr))
+
+    changed = False
+    for parent in ast.walk(fn):
+        for fld in ("body", "orelse", "finalbody"):
+            body = getattr(parent, fld, None)
+            if not (isinstance(body, list) and body and isinstance(body[0], ast.stmt)):
+                continue
+            for i, st in enumerate(body):
+                if not (isinstance(st, ast.If) and isinstance(st.test, ast.BoolOp) and isinstance(st.test.op, ast.And) and len(st.test.values) == 2 and st.orelse):
+                    continue
+                a, b = st.test.values
+                if not (isinstance(a, ast.Compare) and len(a.ops) == 1 and isinstance(a.ops[0], ast.IsNot) and isinstance(a.comparators[0], ast.Constant) and a.comparators[0].value is None
+                        and isinstance(a.left, ast.Name)):
+                    continue
+                g = a.left.id
+                if not (isinstance(b, ast.Compare) and len(b.ops) == 1 and isinstance(b.ops[0], ast.NotEq) and isinstance(b.left, ast.Subscript) and isinstance(b.left.slice, ast.Name)
+                        and b.left.slice.id == g and is_table(b.left.value, "_group_current")):
+                    continue
+                f_txt = ast.unparse(b.comparators[0])
+                gb = [x for x in ast.walk(fn) if isinstance(x, ast.Assign) and len(x.targets) == 1 and isinstance(x.targets[0], ast.Name) and x.targets[0].id == g]
+                if len(gb) != 1:
+                    continue
+                gv = gb[0].value
+                from_table = isinstance(gv, ast.Call) and isinstance(gv.func, ast.Attribute) and gv.func.attr == "get" and len(gv.args) == 1 and not gv.keywords \
+                    and ast.unparse(gv.args[0]) == f_txt and is_table(gv.func.value, "oneof_group_by_field")
+                if not from_table:
+                    continue
+                first = st.orelse[0]
+                if not (isinstance(first, ast.Assign) and isinstance(first.value, ast.Call) and isinstance(first.value.func, ast.Name) and first.value.func.id == "getattr"
+                        and len(first.value.args) == 2 and isinstance(first.value.args[0], ast.Name) and first.value.args[0].id == "self" and ast.unparse(first.value.args[1]) == f_txt):
+                    continue
+                tr = ast.Try(body=[first], handlers=[ast.ExceptHandler(type=ast.Name("AttributeError", ast.Load()), name=None, body=st.body)], orelse=list(st.orelse[1:]), finalbody=[])
+                body[i] = ast.copy_location(tr, st)
+                changed = True
+    if changed:
+        ast.fix_missing_locations(fn)
+    return changed
+
+
 def thread_none_tests(fn: ast.AST) -> bool:
     """after a helper with an early `return None` was expanded in assign mode:
          if C: _ret__h = None            if C: T = None; EXIT
@@ -902,6 +952,13 @@ class Expander:
                 ast.fix_missing_locations(cp)
                 cp._vt_qual = qual
                 cp._vt_origin = fn
+                fn = result = cp
+        if any(isinstance(n_, ast.Attribute) and n_.attr == "_group_current" for n_ in ast.walk(fn)) and any(
+                isinstance(n_, ast.Call) and isinstance(n_.func, ast.Name) and n_.func.id == "getattr" for n_ in ast.walk(fn)):
+            cp = copy.deepcopy(fn)
+            if unselected_tests_as_try(cp):
+                cp._vt_qual = qual
+                cp._vt_origin = getattr(fn, "_vt_origin", fn)
                 fn = result = cp
         # quick exit: no call to an unknown unit anywhere
         if self._has_candidate(fn, cls, qual):
